@@ -956,6 +956,16 @@ func (x *c07Run) runCOSE() {
 // ---------------------------------------------------------------------------------------------
 
 func replayC07(c *vf.Ctx, data json.RawMessage) {
+	var ml struct {
+		Minlink *struct {
+			Config string     `json:"config"`
+			Case   c07MinCase `json:"case"`
+		} `json:"minlink"`
+	}
+	if json.Unmarshal(data, &ml) == nil && ml.Minlink != nil && ml.Minlink.Config != "" {
+		replayC07Min(c, ml.Minlink.Config, ml.Minlink.Case)
+		return
+	}
 	var tie struct {
 		Tie *c07TieCase `json:"tie"`
 	}
